@@ -124,7 +124,7 @@ func RunOne(t *testing.T, prop string, seed uint64, opts RunOpts) (res RunResult
 			}
 		}()
 		synctest.Test(t, func(t *testing.T) {
-			simrt.ResetPools()
+			simrt.ResetGlobals()
 			var tape *simrt.Tape
 			if opts.IsReplay {
 				tape = simrt.NewReplayTape(opts.Replay)
